@@ -73,6 +73,7 @@ def run(rep, tier, seed, replay):
     mo = ltv.run_sharded(model, cases)
     io = ltv.run_sharded(impl, cases)
     nontrivial, mism, samples = set(), 0, []
+    concrete, noise = [], []
     for i, case in enumerate(cases):
         m = mo[i] if i < len(mo) else "MISSING"
         o = io[i] if i < len(io) else "MISSING"
@@ -82,17 +83,30 @@ def run(rep, tier, seed, replay):
         if len(samples) < 4 and i % 997 == 3:
             samples.append({"case": case[:200], "impl": o[:400]})
         viol = oracle(case, o)
+        # the model proves (and computes) which threads must have finished under this schedule: an
+        # implementation run that leaves a thread unfinished where the model finishes it is a concrete
+        # lost wake-up / deadlock (or a step-count divergence) under exactly this schedule
+        mf = re.search(r"\| F (\d\d)", m)
+        of = re.search(r"\| F (\d\d)", oc)
+        if mf and of and mf.group(1) == "11" and of.group(1) != "11" and not any(k == "deadlock" for k, _ in viol):
+            viol.append(("deadlock", "implementation leaves thread(s) unfinished (F=%s) under a schedule on which the model finishes both" % of.group(1)))
         if m != oc:
             mism += 1
             if viol:
-                rep.violation("model and implementation differ AND the property fails on the implementation: " + viol[0][1],
-                              case=case, model=m, impl=o, theorem="correspondence C18 (per-step log under the same schedule)", klass=viol[0][0])
+                concrete.append(("model and implementation differ AND the property fails on the implementation: " + viol[0][1],
+                                 dict(case=case, model=m, impl=o, theorem="correspondence C18 (per-step log under the same schedule)", klass=viol[0][0])))
             else:
-                rep.violation("correspondence broken: model and implementation differ under this schedule (property oracle holds on it)",
-                              case=case, model=m, impl=o, theorem="correspondence C18 (per-step log under the same schedule)", found_input=False)
+                noise.append(("correspondence broken: model and implementation differ under this schedule (property oracle holds on it)",
+                              dict(case=case, model=m, impl=o, theorem="correspondence C18 (per-step log under the same schedule)", found_input=False)))
         else:
             for kl, text in viol:
-                rep.violation(text, case=case, model=m, impl=o, theorem="property oracle C18", klass=kl)
+                concrete.append((text, dict(case=case, model=m, impl=o, theorem="property oracle C18", klass=kl)))
+    # concrete failing inputs first, one per class first, so that correspondence noise never crowds them out
+    seen_k = set()
+    ordered = [x for x in concrete if not (x[1]["klass"] in seen_k or seen_k.add(x[1]["klass"]))]
+    ordered += [x for x in concrete if x not in ordered][:12]
+    for text, kw in ordered + noise[:5]:
+        rep.violation(text, **kw)
     if not coq["ok"]:
         rep.violation("C18 proof obligations no longer check (%d/%d): %s %s" % (
             coq["discharged"], coq["obligations"], "; ".join(coq["lint"] + coq["bad_axioms"]), coq["log"][-1500:]),
